@@ -57,7 +57,7 @@ func verifC16Pub(k interface{}) interface{} {
 func TestVerif_C16_Acme(t *testing.T) {
 	m := mon.New("C16", "acme")
 	defer m.Finish(t)
-	if _, ok := m.ReplayField("part").(string); ok {
+	if m.ReplayField("part") != nil || m.ReplayField("entry") != nil {
 		return // replays of C16 are addressed to the black-box parts
 	}
 	m.Rule("acme: signContent with a pre-filled nonce list (no network) for every fixed RSA key (incl. e=3) and every fixed P-256/P-384 key (incl. leading-zero X/Y/D) " +
